@@ -23,6 +23,7 @@ from bsa.hir import Missing, callee, peel, place, pp, walk
 from rules import polyint as PI
 
 LEVEL = "other"
+SECONDS = {"quick": 25, "thorough": 240}     # wall-clock budget of one abstract call (fails closed)
 
 EXPECTED_IMPLS = {"Add": 6, "Sub": 6, "Mul": 6, "Div": 2, "Neg": 2, "AddAssign": 3, "SubAssign": 3, "MulAssign": 3, "DivAssign": 1}
 
@@ -96,7 +97,7 @@ def check_operator_families(F, run, tier):
                         want = {"Add": ref_add(a, b), "Sub": ref_add(a, b, -1), "Mul": ref_mul(a, b)}[op]
                     inst = "len=%d%s" % (la, "" if lb is None else "x%d" % lb)
                     try:
-                        v, it = PI.call(F, body, args, hook=hook_real)
+                        v, it = PI.call(F, body, args, hook=hook_real, cls=PI.CycloInterp, seconds=SECONDS[tier])
                     except vecint.IndexPanic as e:
                         run.fail("R11.1", dp, "panic:" + inst, where, "abstract execution panics: %s" % e.why)
                         continue
@@ -155,8 +156,8 @@ def check_multiply(F, run, tier):
                     continue   # only the FFT branch depends on the field
                 inst = "%dx%d:%s" % (la, lb, fld)
                 try:
-                    v, it = PI.call(F, mul, [PI.poly(a), PI.poly(b)], hook=hook)
-                    v2, _ = PI.call(F, mul, [PI.poly(b), PI.poly(a)], hook=hook)
+                    v, it = PI.call(F, mul, [PI.poly(a), PI.poly(b)], hook=hook, cls=PI.CycloInterp, seconds=SECONDS[tier])
+                    v2, _ = PI.call(F, mul, [PI.poly(b), PI.poly(a)], hook=hook, cls=PI.CycloInterp, seconds=SECONDS[tier])
                 except vecint.IndexPanic as e:
                     run.fail("R11.2", "polynomial::multiply", "panic:" + inst, where, "abstract execution panics: %s" % e.why)
                     continue
@@ -231,27 +232,30 @@ def check_dft(F, run, tier):
     dft, idft = PI.poly_method(F, "dft"), PI.poly_method(F, "idft")
     run.analysed(dft)
     run.analysed(idft)
-    for la, size in ((1, 1), (2, 2), (3, 4), (4, 4), (3, 8)) + (((5, 8),) if tier == "thorough" else ()):
+    for la, size in ((1, 1), (2, 2), (3, 4), (4, 4), (3, 8), (3, 16)) + (((5, 8), (5, 16), (9, 16)) if tier == "thorough" else ()):
         a = PI.symbols("a", la)
         inst = "len=%d,size=%d" % (la, size)
         try:
-            v, it = PI.call(F, dft, [PI.poly(a), sp.Integer(size)], hook=hook_real)
+            v, it = PI.call(F, dft, [PI.poly(a), sp.Integer(size)], hook=hook_real, cls=PI.CycloInterp, seconds=SECONDS[tier])
         except (sym.Unsupported, vecint.IndexPanic) as e:
             run.broken("R11.4", "Polynomial::dft", inst, F.loc(dft), str(e))
             continue
         n = len(v)
         run.check(n >= size and n & (n - 1) == 0, "R11.4", "Polynomial::dft", "size:" + inst, F.loc(dft), "dft returns %d points for size %d" % (n, size))
-        w = sp.exp(2 * sp.pi * sp.I / n)
-        ok = all(sym.is_zero(sp.expand(v[k] - sum(a[j] * w ** (j * k) for j in range(la)), complex=True)) for k in range(n))
+        if 16 % n == 0:
+            w = PI._cos_k(16 // n) + sp.I * PI._cos_k(16 // n - 4)      # e^{2πi/n} in Q(i)[c]/(8c⁴ − 8c² + 1)
+        else:
+            w = sp.exp(2 * sp.pi * sp.I / n)
+        ok = all(sym.is_zero(PI.cyc_reduce(sp.expand(v[k] - sum(a[j] * w ** (j * k) for j in range(la)), complex=True))) for k in range(n))
         run.check(ok, "R11.4", "Polynomial::dft", "values-at-roots-of-unity:" + inst, F.loc(dft),
                   "dft does not return the values p(e^{2πik/n}), k = 0..n-1", sample="dft(%s) = p(ω^k), ω = e^{2πi/%d}" % (inst, n))
         for hook, fld in ((hook_real, "real"), (hook_complex, "complex")):
             try:
-                back, _ = PI.call(F, idft, [list(v), PI.TOL], hook=hook)
+                back, _ = PI.call(F, idft, [list(v), PI.TOL], hook=hook, cls=PI.CycloInterp, seconds=SECONDS[tier])
             except (sym.Unsupported, vecint.IndexPanic) as e:
                 run.broken("R11.4", "Polynomial::idft", inst + ":" + fld, F.loc(idft), str(e))
                 continue
-            cs = [sp.expand(x, complex=True) for x in PI.coeffs(back)]
+            cs = [PI.cyc_reduce(sp.expand(x, complex=True)) for x in PI.coeffs(back)]
             run.check(PI.same_poly(cs, a), "R11.4", "Polynomial::idft", "inverts-dft:%s:%s" % (inst, fld), F.loc(idft),
                       "idft(dft(p)) = %s, not p" % [str(x) for x in cs][:6], sample="idft∘dft = id (%s, %s)" % (inst, fld))
 
